@@ -129,6 +129,7 @@ def run(ctx):
         raise AnalysisError('monochromatic: chunk loop shape not recognised')
     # locals defined in the chunk body
     benv = dict(senv)
+    benv.setdefault(nw_name[0], scalar(alg.count(N), num(1)))       # the number of tabulated wavelengths, should the chunk body refer to it
     for name, v, st in sequential_defs(lp.body):
         if name == jmin:
             continue
@@ -239,6 +240,7 @@ MO = 'sedfitter/convolve/monochromatic.py'
 CF = 'sedfitter/convolved_fluxes/convolved_fluxes.py'
 ML = 'sedfitter/models.py'
 MUST_FIRE = [
+    ('last chunk clipped at the end of the grid instead of the window', [(MO, 'jmax = min(jmin + chunk_size - 1, jhi)', 'jmax = min(jmin + chunk_size - 1, n_wav - 1)')]),
     ('jlo off by one', [(MO, "jlo = n_wav - 1 - (wavelengths[::-1].searchsorted(wav_max) - 1)", "jlo = n_wav - 1 - wavelengths[::-1].searchsorted(wav_max)")]),
     ('range stop exclusive (D8 reverted)', [(MO, "for jmin in range(jlo, jhi + 1, chunk_size):", "for jmin in range(jlo, jhi, chunk_size):")]),
     ('inner loop over chunk_size', [(MO, "            for j in range(n_chunk):\n\n                fluxes[j].central_wavelength", "            for j in range(chunk_size):\n\n                fluxes[j].central_wavelength")]),
